@@ -12,25 +12,25 @@ CHECKS = {
  "C03": ("model_checking", "explicit-state BFS with differential oracle: played-to board vs the same position rebuilt from text",
          "Every played-to state: in_check/state() equal the reference classification, and the board is indistinguishable (moves, check, state, hash, text, Debug rendering of pin/checker marks) from parse(reference FEN). Families add en-passant-, promotion- and castling-delivered checks.", "3 C03"),
  "C04": ("model_checking", "explicit-state BFS with transposition table: every arrival at a known identity must carry the first-seen hash; all 794 keys pairwise",
-         "All transpositions inside the depth bound hash equal; incremental hash == from-scratch hash; Hash trait feeds equal bytes for equal boards; hash independent of clocks; 794 keys pairwise distinct and non-zero.", "3 C04"),
+         "All transpositions inside the depth bound hash equal; incremental hash == from-scratch hash; Hash trait feeds equal bytes for equal boards; hash independent of clocks; builder-assembled boards hash like parsed ones; every component influences the hash (one-component neighbours that are unequal hash differently); 794 keys pairwise distinct and non-zero.", "3 C04"),
  "C05": ("model_checking", "explicit-state BFS + complete FEN field products, writer/parser round trips on every state",
          "Every BFS state and family member: parse(to_string(b)) == b with same clocks/hash/derived state; to_string(parse(fen)) == fen byte for byte; complete field products (16 rights x ep files x sides, clocks 0..9999); standard() vs parser vs builder.", "3 C05"),
  "C06": ("exploration", "complete enumeration of bounded edit distance around seed FENs (all single edits x 256 byte values, all double edits over a per-match-arm alphabet), all short strings, field-spelling products, builder call sequences",
          "Totality (no panic, also in the overflow-trapping build flavour) on every enumerated byte string; every accepted board satisfies the playability invariants evaluated by the reference model, including the complete domains of the castling-rights and en-passant validations; canonical FENs of reachable positions and of every small-material family member are accepted and parse to that position; builder sequences likewise and equal to the parsed twin.", "3 C06"),
  "C07": ("exploration", "exhaustive drivers of the other properties re-executed in a trapping build (debug assertions + overflow checks + std unsafe-precondition checks) inside worker processes; crash oracle",
-         "Every case of the C01/C03/C06(+two-ply safe-API exercise of every accepted board)/C08/C10/C11/C12/C15/C17/C18 drivers plus extremal positions and degenerate search roots runs without panic, overflow trap, failed assertion or fatal signal.", "3 C07"),
+         "Every case of the C01/C03/C06(+two-ply safe-API exercise of every accepted board)/C08/C10/C11/C12/C15/C17/C18 drivers plus extremal positions (18-entry move lists, clock counters at the 16-bit limit, rejected-by-validation shapes), perft_test at small depths, DurationTimeout at boundary durations and degenerate search roots runs without panic, overflow trap, failed assertion or fatal signal.", "3 C07"),
  "C08": ("exploration", "complete enumeration of every ray-subset occupancy for 64 squares x 2 sliders against ray casting",
          "Exhaustive over the 1 119 744 ray-subset occupancies (x4 off-ray/own-square variants) plus single off-ray toggles; the check runs in the trapping build flavour, where an out-of-range table index panics (checked indexing) and is reported.", "3 C08"),
  "C09": ("exploration", "complete enumeration of all geometry tables, pawn helpers (every relevant occupancy) and constants against (file,rank) definitions and the generator",
          "Finite domain enumerated completely.", "3 C09"),
  "C10": ("model_checking", "deviation-bounded stateless exploration of operation sequences on the real MoveGen against a set model (0, 1, 2 mutators at every point; 3 in thorough)",
-         "Every run over 32 mutator instances x every placement, driven to exhaustion with len/is_empty/size_hint checked after every step; two data-structure limitations are known findings (F12, F13).", "3 C10"),
+         "Every run over 37 mutator instances (incl. remove_move of non-members sharing source and destination with members) x every placement, plus king_legals of both colours, driven to exhaustion with len/is_empty/size_hint checked after every step; two data-structure limitations are known findings (F12, F13).", "3 C10"),
  "C11": ("fault_enumeration", "environment-answer enumeration: a counting timeout expires at poll k for every k; one complete real search per (position, k), plugin boundary included",
          "For every position of the catalogue (incl. forced-move roots) and every expiry index up to three completed passes (or the cap): terminates, returns no move or a reference-legal move, a move whenever a pass completed or the search ended by itself and moves exist, no move when none exist; repeated with one Engine reused across two positions, through the plugin boundary, and with a tracing subscriber installed.", "3 C11"),
  "C12": ("exploration", "complete enumeration of KQ-K / KR-K / KP-K positions and mate scenarios, each searched until the first pass completes",
          "Mate in one is returned with a mate-in-one score whenever the first pass completes, and a mate-in-one score is only reported with a mating move; positional evaluation off and on; families include mates that compete with captures, capture-mates into minor-piece endings, promotion-only and knight-under-promotion mates.", "3 C12"),
  "C13": ("exploration", "differential enumeration: every catalogue position vs its colour mirror, scores per completed depth collected over a ladder of expiry points",
-         "score_d(position) == negate(score_d(mirror)) for every depth both searches complete below the cap.", "3 C13"),
+         "score_d(position) == negate(score_d(mirror)) for every depth both searches complete below the cap; catalogue = structured families (BFS states, endgames, castling, material signatures) plus two fixed pseudo-random lists of sparse positions executed completely (stated in the evidence, exhaustive:false).", "3 C13"),
  "C14": ("exploration", "complete enumeration of pairs/triples over representative scores; thorough: all 65536^2 mate-distance pairs and all 2^32 numeric scores",
          "Total-order laws and the stated preference order on all representative pairs and triples; thorough closes the payload domains.", "3 C14"),
  "C15": ("model_checking", "exhaustive enumeration of call histories (make_move legal/illegal, set_board, evaluate) on the real plugin loaded through the stable ABI, against a reference board and occurrence counter",
@@ -40,10 +40,10 @@ CHECKS = {
  "C17": ("exploration", "complete depth-first walk of the embedded book trie with the real Board and the reference in lock-step (trapping build)",
          "All 29 036 book nodes: legal, no promotion needed, same successor, child index strictly below parent and inside the table, iteration terminates.", "3 C17"),
  "C18": ("exploration", "complete enumeration of structured bitboard families against a [bool;64] set model; iterator explored as a state machine",
-         "Every operation on every member of the stated family (~70k boards incl. all subsets of a 16-square edge window); nth(n) result and residual state for all n up to 66 and usize::MAX from every suffix state.", "3 C18"),
+         "Every operation on every member of the stated family (~76k boards incl. all subsets of a 16-square edge window, rank-symmetric and irregular boards); nth(n) result and residual state for all n up to 66 and usize::MAX from every suffix state.", "3 C18"),
  "C20": ("model_checking", "two engines: BFS over reference states with every (thread, op) + suffix executed on fresh OS threads in lock-step; loom (controlled scheduler, DPOR, preemption bound 3) on the unmodified source through a std shim, linearizability oracle",
-         "Engine A closes histories at operation granularity on the real thread-local machinery; engine B covers every interleaving inside the operations for all pairs of <=2-op programs (3 in thorough).", "3 C20"),
- "C19": ("exploration", "complete enumeration of byte strings (all 1-2 byte strings, all 4-5 byte move strings over a confusable alphabet) and BFS-to-closure of the enumerating iterators",
+         "Engine A closes histories at operation granularity on the real thread-local machinery (incl. late-born threads, two live tokens, and delivery through the GlobalEnable layer); engine B covers every interleaving inside the operations for all pairs of <=2-op programs (3 in thorough).", "3 C20"),
+ "C19": ("exploration", "complete enumeration of byte strings (all 1-2 byte strings, all 4-5 byte move strings over a confusable alphabet, every single-byte substitution of every valid move text, non-ASCII substitutions for the FromStr parsers) and BFS-to-closure of the enumerating iterators",
          "Parsers accept exactly the intended spellings on every enumerated string; conversions consistent on all values; iterators equal slice iterators on every reachable state.", "3 C19"),
 }
 
